@@ -186,7 +186,11 @@ pub fn monitor(o: &Obs, events: &[&str]) -> Result<(), String> {
         let _ = polls;
     }
     // C09: bounded work per step
-    let budget = 40 + 12 * events.len();
+    // … bounded by the data available: every scripted stream answer may cost a poll of its stream plus a
+    // ready / send / flush call on each subscriber
+    let answers: usize = events.iter().filter(|e| e.starts_with("+t")).map(|e| e.matches(',').count() + 1).sum();
+    let sinks = events.iter().filter(|e| e.starts_with("+k")).count();
+    let budget = 40 + 12 * events.len() + answers * (4 * sinks + 2);
     if o.max_inner > budget { return Err(format!("C09: {} child calls inside one poll", o.max_inner)); }
     Ok(())
 }
@@ -249,6 +253,16 @@ pub fn run(cfg: &Cfg) {
                         cases.push(format!("ps {lead} {} {tail}", burst.join(" ")));
                     }
                 }
+            }
+        }
+        // long bursts of messages that are all ready at once (more than any per-poll allowance a router might
+        // have): everything available must be forwarded and flushed before the router sleeps on the publisher
+        for n in [63usize, 64, 65, 127, 128, 129, 130, 255, 256, 257, 1000] {
+            let items: Vec<String> = (1..=n).map(|i| format!("i{i}")).collect();
+            for (sinks, tail) in [("+k_", "p"), ("+k_ +k_", "p"), ("+kf=PR +k_", "p,i5000,p"), ("+k_", "")] {
+                let script = if tail.is_empty() { items.join(",") } else { format!("{},{tail}", items.join(",")) };
+                cases.push(format!("ps {sinks} +t{script} poll poll poll poll"));
+                cases.push(format!("ps +t~{script} {sinks} poll poll poll close poll poll"));
             }
         }
         let mut r = Rng::new(cfg.seed, "pubsub");
